@@ -454,6 +454,14 @@ BesideRows(rows, D, k, n) ==
             /\ (p > k + Len(D[i]) /\ p <= hi + 2) => cr[p] = SP
             /\ (p >= lo - 2 /\ p < lo) => cr[p] = SP
             /\ (p < lo \/ p > hi) => (cr[p] \in {SP, NUL} \/ ~Drawing(cr[p]))
+\* the drawing's cells are where they are claimed to be, and every other cell within one cell of them is blank
+InScene(rows, D, k, n) ==
+  LET AtS(r, c) == IF r \in 1..Len(rows) /\ c \in 1..Len(rows[r]) THEN rows[r][c] ELSE SP
+      own == { <<n + i, k + j>> : i \in 1..Len(D), j \in 1..DrawingW(D) } \cap { <<n + i, k + j>> : i \in 1..Len(D), j \in 1..DrawingW(D) }
+      mine == { p \in own : LET i == p[1] - n j == p[2] - k IN j <= Len(D[i]) /\ D[i][j] # SP } IN
+  /\ \A p \in mine : AtS(p[1], p[2]) = D[p[1] - n][p[2] - k]
+  /\ \A p \in mine : \A dr \in -1..1, dc \in -1..1 :
+        <<p[1] + dr, p[2] + dc>> \notin mine => AtS(p[1] + dr, p[2] + dc) = SP
 CircleOracle(D, k, n, e) ==
   /\ IsCircle(e) /\ AllOnLattice(e.n)
   /\ U(e.n[3]) = RadiusOf(D)
@@ -462,9 +470,15 @@ CircleOracle(D, k, n, e) ==
 C13_OK(ev) ==
   LET D == CircleDrawings[ev.circ.idx] k == ev.circ.k n == ev.circ.n
       \* (extra = 4: unrelated content ABOVE the drawing; only the circles of the drawing's own rows are counted)
-      C == { i \in Idx(ev.doc) : IsCircle(ev.doc.elems[i]) /\ (ev.circ.extra = 4 => ev.doc.elems[i].n[2] >= n * CH * MILLI) } IN
+      \* (extra = 5: the drawing stands in a picture of other shapes - inside a frame, between long diagonals, in a box - touching
+      \*  nothing; the circles whose centre lies in the drawing's own rectangle of cells are counted)
+      InOwnBox(e) == /\ e.n[1] >= k * CW * MILLI /\ e.n[1] <= (k + DrawingW(D)) * CW * MILLI
+                     /\ e.n[2] >= n * CH * MILLI /\ e.n[2] <= (n + Len(D)) * CH * MILLI
+      C == { i \in Idx(ev.doc) : IsCircle(ev.doc.elems[i]) /\ (ev.circ.extra = 4 => ev.doc.elems[i].n[2] >= n * CH * MILLI)
+                                                          /\ (ev.circ.extra = 5 => InOwnBox(ev.doc.elems[i])) } IN
   /\ ev.doc.wf = 1
   /\ IF ev.circ.extra = 3 THEN BesideRows(ev.rows, D, k, n)
+     ELSE IF ev.circ.extra = 5 THEN InScene(ev.rows, D, k, n)
      ELSE IF ev.circ.extra = 4 THEN /\ n >= 1 /\ Len(ev.rows) = n + Len(D) /\ ev.rows[n] = <<>>
                                     /\ SubSeq(ev.rows, n + 1, n + Len(D)) = SubSeq(PlacedRows(D, k, n), n + 1, n + Len(D))
      ELSE IF ev.circ.extra = 2 THEN ev.rows = WithLabel(PlacedRows(D, k, n), ev.circ.lx, ev.circ.ly, ev.circ.lch)
@@ -474,6 +488,7 @@ C13_OK(ev) ==
   /\ Cardinality(C) = 1
   /\ CircleOracle(D, k, n, ev.doc.elems[CHOOSE i \in C : TRUE])
   /\ IF ev.circ.extra = 0 THEN Len(ev.doc.elems) = 1 /\ Len(ev.rows) = n + Len(D)
+     ELSE IF ev.circ.extra = 5 THEN TRUE        \* whatever the rest of the picture becomes: the drawing is one circle, once
      ELSE IF ev.circ.extra = 4
      THEN \* whatever stands above, separated by a blank row, stays above the drawing's first row
           \A i \in Idx(ev.doc) : i \notin C =>
